@@ -15,6 +15,7 @@ import (
 	"sync"
 	"time"
 
+	"github.com/NethermindEth/juno/core"
 	"github.com/NethermindEth/juno/core/felt"
 	"verif/harness/lib"
 )
@@ -303,7 +304,12 @@ func analyse(sc Scenario, out *outcome, drv *lib.Driver) *caseResult {
 			}
 		case eStored:
 			cr.hits["commit:stored"]++
-			if f, forged := servedForged[e.Hash.String()]; !e.Valid && (forged || strings.HasPrefix(e.Note, stateRootPrefix)) {
+			if f, forged := servedForged[e.Hash.String()]; !e.Valid && forged && f.Fault == "forged:unsupported-version" {
+				viol("stored-block-of-an-unsupported-protocol-version", fmt.Sprintf(
+					"block %d was STORED although its protocol version is above the latest one juno supports (core.CheckBlockVersion, the first check of verifyBlockSuccession inside Store): "+
+						"a self-consistent block (right number and parent, true state roots, block hash computed over the header with that version) that SanityCheckNewHeight accepts", e.Num))
+				cr.hits["forged:STORED"]++
+			} else if !e.Valid && (forged || strings.HasPrefix(e.Note, stateRootPrefix)) {
 				backend := "legacy state backend (blockchain/statebackend/deprecated.go, core/deprecatedstate)"
 				if sc.DstNew {
 					backend = "new state backend (blockchain/statebackend/statebackend.go, core/state)"
@@ -520,6 +526,12 @@ func analyse(sc Scenario, out *outcome, drv *lib.Driver) *caseResult {
 		}
 		if why := checkClasses(out.final, final); why != "" {
 			viol("declared-class-missing-or-different-in-state-after-sync", why)
+		}
+		if sc.ViaFeeder {
+			// (blocks the node held before the run were stored directly, without the feeder)
+			if why := checkDeployedClasses(out.final, final[min(sc.Prestore, len(final)):]); why != "" {
+				viol("class-of-deployed-contract-missing-in-state-after-sync", why)
+			}
 		}
 		if h, err := out.final.Height(); len(final) > 0 && (err != nil || h != uint64(len(final)-1)) {
 			viol("final-height-differs-from-source", fmt.Sprintf("Height()=%d,%v want %d", h, err, len(final)-1))
@@ -758,6 +770,16 @@ func analyse(sc Scenario, out *outcome, drv *lib.Driver) *caseResult {
 			cr.mismatches = append(cr.mismatches, lib.Mismatch{Sig: "impl-replay-differs", Input: replay(), Model: diff, Impl: "observed on the real synchroniser"})
 		}
 	}
+	// ---- the outcome of every delivery (also the ones that change nothing) vs the model ----------
+	if drv != nil && out.hang == "" && out.panicMsg == "" && cr.fatal == "" {
+		cr.compared += checkOutcomes(cr, sc, out, id, drv, byHash, replay)
+		if cr.fatal == "" {
+			cr.compared += checkStatus(cr, out, id, drv, replay)
+		}
+		if cr.fatal == "" && len(out.fetchCalls) > 0 {
+			cr.compared += checkClassFetches(cr, out.fetchCalls, id, drv, replay)
+		}
+	}
 	cr.key = fmt.Sprintf("%s/%d/%v/%d", sc.Kind, sc.Seed, sc.DstNew, sc.Procs)
 	cr.nontrivial = len(stores) > 0 || nst > 0 || len(curRun) > 0
 	return cr
@@ -823,6 +845,9 @@ func revertCause(before []entry, x entry) (string, string) {
 	if req >= 0 && req > lie {
 		// the task asked for this block: that answer decided
 		e := before[req]
+		if e.Kind == eServed && strings.Contains(e.Fault, "matching the fabricated latest header") && lie >= 0 {
+			return "lying-latest-header", fmt.Sprintf("number %d, %s, backed by a block answer whose Hash field carries the fabricated hash (it fails SanityCheckNewHeight)", before[lie].Num, before[lie].Fault)
+		}
 		if e.Kind == eServed && strings.HasPrefix(e.Fault, "corrupt:hash") {
 			return "hash-altered-answer", e.Fault
 		}
@@ -973,8 +998,8 @@ func raceScenario(seed uint64, dstNew bool) Scenario {
 	pre := r.Range(1, 5) // the node holds A0..A(pre-1) and syncs A(pre) first
 	n := uint64(pre + 1) // B_n is stored on top of A(pre); A(n+1) is the stale successor
 	held := n + 1
-	procs := lib.Pick(r, []int{2, 4, 0})
-	k := 18 + r.Intn(3) // blocks of chain A above A(pre): enough to switch to parallel fetchers
+	procs := lib.Pick(r, []int{2, 4, 0, 20}) // 20 > the 16 of maxWorkers()
+	k := 18 + r.Intn(3)                      // blocks of chain A above A(pre): enough to switch to parallel fetchers
 	return Scenario{Kind: "race", Seed: seed, SrcNew: seed%2 == 0, DstNew: dstNew, Procs: procs, Prestore: pre, StartEpoch: 0,
 		Epochs:   []EpochSpec{{Add: pre + 1 + k}, {Depth: k, Add: r.Range(2, 6)}},
 		Triggers: []Trigger{{AfterServed: &held}},
@@ -1037,6 +1062,8 @@ func forgedScenario(seed uint64, dstNew bool) Scenario {
 		Epochs: []EpochSpec{{Add: n}}, EmptyDiffPct: 50,
 		Faults: Faults{ForgePct: 35, Budget: 2, ForgeTwin: seed%3 == 0,
 			Rules: []Rule{{AnyEmpty: true, Epoch: 0, Action: "forged-root", Times: 4}}}}
+	// one block of a protocol version juno does not support (self-consistent otherwise)
+	sc.Faults.Rules = append(sc.Faults.Rules, Rule{Height: uint64(pre + int(seed%uint64(n-pre))), Epoch: 0, Action: "forged-version", Times: 1})
 	if seed%4 == 1 {
 		sc.Epochs = append(sc.Epochs, EpochSpec{Depth: r.Range(1, 3), Add: r.Range(1, 4)})
 		sc.Triggers = []Trigger{{AtStores: r.Range(2, n-pre), AtReq: 400}}
@@ -1046,6 +1073,56 @@ func forgedScenario(seed uint64, dstNew bool) Scenario {
 		sc.ViaFeeder = true
 	}
 	return sc
+}
+
+// tamperScenario: every block of the source has transactions, events, signatures (and the chain
+// declares a Sierra class); the first answers for each height go through EVERY corruption kind of
+// corrupt() — each fails exactly one check of SanityCheckNewHeight — before the honest block is
+// served. Nothing tampered may be stored; the node must converge.
+func tamperScenario(seed uint64, dstNew bool) Scenario {
+	var sc Scenario
+	for try := 0; try < 400; try, seed = try+1, seed+1000 {
+		r := lib.NewRNG(seed)
+		pre := r.Intn(2)
+		sc = Scenario{Kind: "tamper", Seed: seed, SrcNew: seed%2 == 0, DstNew: dstNew, Procs: lib.Pick(r, []int{1, 2, 0}), Prestore: pre, StartEpoch: 0,
+			Epochs: []EpochSpec{{Add: pre + 4}}, RichTxs: 4, NoChurn: true,
+			Faults: Faults{CorruptEachKind: true}}
+		chains, err := buildChains(sc)
+		if err != nil {
+			return sc
+		}
+		// one block declares a Sierra class alone, another one a Sierra class next to a Cairo-0 class
+		alone, both := false, false
+		for _, b := range chains[0][pre:] {
+			ns, n0 := 0, 0
+			for _, cl := range b.Classes {
+				if _, ok := cl.(*core.SierraClass); ok {
+					ns++
+				} else {
+					n0++
+				}
+			}
+			alone = alone || (ns == 1 && n0 == 0)
+			both = both || (ns >= 1 && n0 >= 1)
+		}
+		if alone && both {
+			return sc
+		}
+	}
+	return sc
+}
+
+// liePairScenario: node and source hold the SAME chain and the source never changes it. One
+// BlockHeaderLatest answer carries a fabricated hash at height k, and the request for block k that
+// isReverting makes to confirm it is answered with block k carrying that very hash in its Hash field:
+// header and block agree with each other, but the block is not self-consistent.
+func liePairScenario(seed uint64, dstNew bool) Scenario {
+	r := lib.NewRNG(seed)
+	a := r.Range(3, 6)
+	k := r.Intn(a)
+	return Scenario{Kind: "liepair", Seed: seed, SrcNew: seed%2 == 1, DstNew: dstNew, Procs: lib.Pick(r, []int{1, 2, 0}), Prestore: a, StartEpoch: 0,
+		Epochs: []EpochSpec{{Add: a}},
+		Faults: Faults{Rules: []Rule{{Height: uint64(k), Epoch: 0, Action: "latest-fabricated", Times: 1, Matching: true}}}}
 }
 
 func dynamicScenario(r *lib.RNG, i int) Scenario {
@@ -1206,6 +1283,10 @@ func main() {
 			scs = append(scs, wrongNumScenario(f.Seed*79+uint64(i), i%2 == 1))
 			scs = append(scs, lieScenario(f.Seed*83+uint64(i), i%2 == 0, i%2 == 1))
 			scs = append(scs, hashLieScenario(f.Seed*89+uint64(i), i%2 == 1))
+			scs = append(scs, liePairScenario(f.Seed*101+uint64(i), i%2 == 0))
+			if i%2 == 0 {
+				scs = append(scs, tamperScenario(f.Seed*103+uint64(i), i%4 == 0))
+			}
 			for j := 0; j < 6; j++ {
 				scs = append(scs, forgedScenario(f.Seed*97+uint64(i*6+j), (i+j)%2 == 0))
 			}
@@ -1362,6 +1443,38 @@ func main() {
 			}
 		}
 	}
+	if f.Replay == "" && len(res.Violations) == 0 {
+		// vacuity floors of the round-4 generator families
+		kinds := map[string]bool{}
+		for k := range res.Distribution {
+			if strings.HasPrefix(k, "refused-by-verifier:") {
+				k = strings.TrimPrefix(k, "refused-by-verifier:")
+				if k == "hash" || k == "hash+parent" || k == "number+hash" || strings.HasPrefix(k, "hash(") {
+					continue // answers with an altered Hash field (alterHash), not corruption kinds
+				}
+				if strings.HasPrefix(k, "tx-field(") {
+					k = "tx-field"
+				}
+				kinds[k] = true
+			}
+		}
+		if len(kinds) != nCorruptKinds {
+			res.Fatalf("%d of the %d corruption kinds (each fails exactly one check of SanityCheckNewHeight) reached the verifier and were seen to be refused", len(kinds), nCorruptKinds)
+		}
+		for _, tk := range []string{"invoke", "declare", "deploy-account", "l1-handler"} {
+			if res.Distribution["refused-by-verifier:tx-field("+tk+")"] == 0 {
+				res.Fatalf("no %s transaction with a changed field (recorded hash kept) reached the verifier", tk)
+			}
+		}
+		for _, be := range []string{"false", "true"} {
+			if res.Distribution["forged:unsupported-version-refused-by-Store(dst-new-state="+be+")"] == 0 {
+				res.Fatalf("no self-consistent block of an unsupported protocol version reached Store on the backend dst_new_state=%s: CheckBlockVersion in verifyBlockSuccession was not exercised", be)
+			}
+		}
+		if res.Distribution["lie:hash(matching the fabricated latest header)"] == 0 {
+			res.Fatalf("no fabricated latest header was backed by a matching block answer: the verification of isReverting's confirming fetch was not exercised")
+		}
+	}
 	if skipped > 0 {
 		res.Note("%d cases not run after repeated hangs / lost notifications (violations recorded above)", skipped)
 	}
@@ -1375,6 +1488,8 @@ func main() {
 			drv = nil
 		}
 		checkFeeds(f, res, drv)
+		checkVersions(f, res, drv)
+		checkTamperMatrix(f, res)
 		if drv != nil {
 			drv.Close()
 		}
